@@ -1,12 +1,15 @@
 #!/bin/bash
-# copy finished seed-agent outputs /tmp/seed_out/Cxx/{patchX.diff,demoX.py,metaX.json} into seeded/Cxx-X/
-for d in $(for i in "$@"; do echo /tmp/seed_out/$i; done); do
-  id=$(basename $d)
-  for v in A B; do
-    if [ -f $d/patch$v.diff ] && [ -f $d/demo$v.py ] && [ -f $d/meta$v.json ] && [ ! -d seeded/$id-$v ]; then
-      mkdir -p seeded/$id-$v
-      cp $d/patch$v.diff seeded/$id-$v/patch.diff; cp $d/demo$v.py seeded/$id-$v/demo.py; cp $d/meta$v.json seeded/$id-$v/meta.json
-      echo imported $id-$v
+# copy finished seed-agent outputs $SRC/Cxx/{patchX.diff,demoX.py,metaX.json} (X in A,B) into seeded/Cxx-<L1|L2>/
+# usage: SRC=/tmp/seed3_out L1=E L2=F tools/import_seeded.sh C01 C02 ...     (defaults: /tmp/seed_out A B)
+SRC=${SRC:-/tmp/seed_out}; L1=${L1:-A}; L2=${L2:-B}
+for id in "$@"; do
+  d=$SRC/$id
+  for pair in A:$L1 B:$L2; do
+    v=${pair%%:*}; t=${pair##*:}
+    if [ -f $d/patch$v.diff ] && [ -f $d/demo$v.py ] && [ -f $d/meta$v.json ] && [ ! -d seeded/$id-$t ]; then
+      mkdir -p seeded/$id-$t
+      cp $d/patch$v.diff seeded/$id-$t/patch.diff; cp $d/demo$v.py seeded/$id-$t/demo.py; cp $d/meta$v.json seeded/$id-$t/meta.json
+      echo imported $id-$t
     fi
   done
 done
